@@ -83,7 +83,7 @@ def realisations(es, ns, tier):
         opts.append(o)
     base = tuple(o[0] for o in opts)
     out = [base]
-    maxdev = 2 if tier == "quick" else 3
+    maxdev = 2 if (tier == "quick" or len(es) > 3) else 3
     idxs = range(len(es))
     for r in range(1, min(maxdev, len(es)) + 1):
         for which in itertools.combinations(idxs, r):
